@@ -3,8 +3,8 @@
 Parameterised adversarial program families (harness/c13_families.py) are swept over a size parameter n and run
 through the complete pipeline (`lian run`, with and without --enable-p2) in forked, killable children
 (harness/c13_run.py).  The verdict is taken on DETERMINISTIC STEP COUNTS obtained by wrapping, from the harness,
-the per-statement visit of P2/P3, StmtStates.run, ComputeFrameStack.add and the taint worklist pops; wall-clock
-time is only a watchdog.  See RULE / ASSUMPTIONS below for the exact oracle.
+the per-statement visit of P2/P3, StmtStates.run, ComputeFrameStack.add, SymbolStateSpace.add and the taint worklist
+pops; wall-clock time is only a watchdog.  See RULE / ASSUMPTIONS below for the exact oracle.
 """
 import math
 import os
@@ -24,15 +24,17 @@ WATCHDOG_FACTOR = 100.0
 MEM_LIMIT_KB = 1 << 20        # a run may add at most 1 GiB of resident memory on top of the warm worker
 COMPOSE_FACTOR = 2 ** DEGREE  # a composition of two programs at most doubles the size of the larger one
 
-RULE = ("sweeps: for each of %d program families x {without, with --enable-p2} the size parameter n runs through an "
-        "ascending list (quick: 2..16, thorough: 2..64 where valid) and every instance goes through the complete "
-        "pipeline in a forked child with a step budget, an address-space limit and a wall-clock watchdog; "
-        "compositions: Hypothesis-drawn pairs of families at n in 2..6 glued into one project. "
-        "Oracle on deterministic step counters (P2/P3 statement visits, StmtStates.run, frames pushed, taint "
-        "worklist pops; thorough also total Python/C calls from cProfile): for consecutive sizes a<b of a sweep "
-        "counter(b) <= (b/a)^3.5 * counter(a) for the total and for every single counter >= 50 (the run of size b "
-        "is aborted as soon as the total exceeds that bound); a composition needs <= 2^3.5 x the steps of its "
-        "costlier part; every run finishes before the watchdog max(120 s, 100 x wall of the previous size), a hit is "
+RULE = ("sweeps: for each of %d program families (recursion, mutual-recursion rings, self-application, cyclic imports, "
+        "cyclic object graphs, nested loops, call chains with 2/3 call sites per function, branches, aliases, big literals, "
+        "assignment chains, multi-valued operand chains, hostile constants) x {without, with --enable-p2} the size "
+        "parameter n runs through an ascending list (quick: 2..16, thorough: 2..64 where valid) and every instance goes "
+        "through the complete pipeline in a forked child with a step budget, an address-space limit and a wall-clock "
+        "watchdog; compositions: Hypothesis-drawn pairs of families at n in 2..6 glued into one project. "
+        "Oracle on deterministic step counters (P2/P3 statement visits, StmtStates.run, frames pushed, taint worklist "
+        "pops, items added to a symbol-state space; thorough also total Python/C calls from cProfile): for consecutive "
+        "sizes a<b of a sweep counter(b) <= (b/a)^3.5 * counter(a) for the total and for every single counter >= 50 (the "
+        "run of size b is aborted as soon as the total exceeds that bound); a composition needs <= 2^3.5 x the steps of "
+        "its costlier part; every run finishes before the watchdog max(120 s, 100 x wall of the previous size), a hit is "
         "re-run once; resident memory grows by < 1 GiB. "
         "Non-trivial = sweep instance with n >= 8 whose step count exceeds that of the smallest instance of its "
         "sweep, or a composition whose step count exceeds that of each of its parts; distinct by (families, sizes, flag)."
@@ -43,15 +45,20 @@ ASSUMPTIONS = [
     "that is >= 100 x (wall) resp. (b/a)^3.5 x (steps) what the next smaller instance needed",
     "polynomial growth is decided for the stated families and sizes only (n <= 16 quick, <= 64 thorough), on step counters, with "
     "degree <= 3.5 accepted (the unchanged tree is cubic in the taint phase: sources x sinks x SFG size)",
-    "a step is one call of P2PrelimSemanticAnalysis.compute_stmt_states / StmtStates.run / ComputeFrameStack.add or one "
-    "deque.popleft of taint_analysis; work inside one step is only bounded by the cProfile call count of the thorough tier",
+    "a step is one call of P2PrelimSemanticAnalysis.compute_stmt_states / StmtStates.run / ComputeFrameStack.add / "
+    "SymbolStateSpace.add or one deque.popleft of taint_analysis; work inside one step is only bounded by the cProfile call "
+    "count of the thorough tier and by the watchdog",
     "rule files: entry %unit_init, parameter source `p`, sink call `sink(arg0)`; the 1 MB *_from_code.yaml rule files are "
     "replaced by an empty list; python only",
     "a pipeline run that ends with an exception has terminated: it is counted (labels, counters) but is not a C13 violation",
     "the programs of the other checks are not re-run here (they run under their own drivers)",
+    "while a finding of a group is open, the families of that group are swept only over the sizes below the blow-up "
+    "(step-over, counted); the committed replay files keep exercising the finding itself",
 ]
 
+# families whose discrepancies share one root cause are reported under one group name
 GROUPS = {f: "const-fold" for f in fam.HOSTILE}
+GROUPS.update({"state_squaring": "state-product", "state_squaring_call": "state-product"})
 
 # sizes -------------------------------------------------------------------------------------------
 QUICK_SIZES = [2, 3, 4, 6, 8, 12, 16]
@@ -62,15 +69,18 @@ MAX_SIZE = {
     # cubic taint phase: n = 64 needs > 3 M steps (minutes)
     "mutual_ring2": {"quick": 16, "thorough": 32},
 }
-HOSTILE_SIZES = {
-    # (sizes while the const-fold finding is open [step-over], sizes otherwise)
+RESTRICTED = {
+    # family: (sizes while a finding of its group is open [step-over], sizes otherwise)
     "hostile_strings": ([1, 4, 16, 64], [1, 4, 16, 64]),
     "hostile_arith": ([1, 2, 3], [1, 2, 3, 4, 6, 8, 12, 16]),
     "hostile_tower": ([1, 2], [1, 2, 3, 4, 6, 8]),
     "hostile_doubling": ([4, 8, 12, 16], [4, 8, 12, 16, 24, 32, 48]),
     "hostile_squaring": ([4, 8, 12], [4, 8, 12, 16, 24, 32, 48]),
+    "state_squaring": ([1, 2, 3], [1, 2, 3, 4, 6, 8, 12, 16]),
+    "state_squaring_call": ([1, 2, 3], [1, 2, 3, 4, 6, 8, 12, 16]),
 }
-THOROUGH_EXTRA = {"hostile_strings": [256, 1024, 4096], "nested_loops": [18]}
+THOROUGH_EXTRA = {"hostile_strings": [256, 1024, 4096], "nested_loops": [18], "state_squaring": [32], "state_squaring_call": [32]}
+KINDS = ("growth", "watchdog", "memory", "compose-growth")
 
 
 def flagstr(p2):
@@ -79,23 +89,26 @@ def flagstr(p2):
 
 def group_of(spec):
     gs = sorted({GROUPS.get(f, f) for f, _ in spec})
-    if "const-fold" in gs:
-        return "const-fold"
+    for g in ("const-fold", "state-product"):
+        if g in gs:
+            return g
     return "+".join(gs)
 
 
-def const_fold_open():
-    """step-over switch: true while the unbounded-constant-folding finding (either facet) is listed as open"""
-    return any(common.classify(ID, (ID, "const-fold", k))[0] == "known" for k in ("watchdog", "memory"))
+def group_open(group):
+    """step-over switch: true while a finding of the group (any facet) is listed as open"""
+    return any(common.classify(ID, (ID, group, k))[0] == "known" for k in KINDS)
 
 
 def sizes_for(family, tier):
-    if family in HOSTILE_SIZES:
-        safe, full = HOSTILE_SIZES[family]
-        sizes = list(safe if const_fold_open() else full)
-        if tier == "thorough":
-            sizes += THOROUGH_EXTRA.get(family, [])
-        return sizes, (len(full) - len(safe) if const_fold_open() else 0)
+    """-> (sizes, number of sizes stepped over)"""
+    if family in RESTRICTED:
+        safe, full = RESTRICTED[family]
+        stepped = group_open(GROUPS[family])
+        sizes = list(safe if stepped else full)
+        if tier == "thorough" and not stepped:
+            sizes = sorted(set(sizes + THOROUGH_EXTRA.get(family, [])))
+        return sizes, (len(full) - len(safe) if stepped else 0)
     base = QUICK_SIZES if tier == "quick" else THOROUGH_SIZES
     cap = MAX_SIZE.get(family, {}).get(tier)
     sizes = [n for n in base if cap is None or n <= cap]
@@ -172,7 +185,7 @@ def record_run(col, r, spec, p2):
     if r["status"] == "done":
         if r.get("exc"):
             col.label("pipeline-exception")
-            col.extra["pipeline_exception:%s" % str(r["exc"]).split(":")[0]] += 1
+            col.extra["pipeline_exception:%s:%s" % (str(r["exc"]).split(":")[0], "+".join("%s(%s)" % (f, n) for f, n in spec))] += 1
         else:
             if r.get("flows"):
                 col.label("taint:flows>0")
@@ -203,7 +216,7 @@ def sweep(col, family, p2, sizes, count_calls=False, counters=GROWTH_COUNTERS, f
         r = run_once(files, p2, wall_s, budget, count_calls=count_calls)
         record_run(col, r, spec, p2)
         c = r.get("counters") or {}
-        trace.append([n, r["status"], c.get("steps")])
+        trace.append([n, r["status"], c.get("calls") if count_calls else c.get("steps")])
         case_pair = {"kind": "pair", "family": family, "p2": bool(p2), "a": prev[0] if prev else None, "b": n,
                      "calls": bool(count_calls)}
         d = judge_terminal(r, spec, p2, wall_s)
@@ -309,12 +322,12 @@ def compose_shard(arg):
     import hypothesis
     from hypothesis import settings, strategies as st, HealthCheck
     col = Collector()
-    cf_open = const_fold_open()
+    stepped = {f: group_open(GROUPS[f]) and RESTRICTED[f][0] != RESTRICTED[f][1] for f in RESTRICTED}
     names = sorted(fam.FAMILIES)
 
     def size_st(f):
-        if f in HOSTILE_SIZES:
-            return st.sampled_from(HOSTILE_SIZES[f][0] if cf_open else HOSTILE_SIZES[f][1][:6])
+        if f in RESTRICTED:
+            return st.sampled_from(RESTRICTED[f][0] if stepped[f] else RESTRICTED[f][1][:6])
         return st.integers(2, 6)
 
     part = st.sampled_from(names).flatmap(lambda f: st.tuples(st.just(f), size_st(f)))
@@ -325,8 +338,9 @@ def compose_shard(arg):
     @hypothesis.given(part, part, st.booleans())
     def prop(a, b, p2):
         spec = [[a[0], a[1]], [b[0], b[1]]]
-        if cf_open and any(f in fam.HOSTILE for f, _ in spec):
-            col.stepovers["C13|const-fold|hostile sizes restricted"] += 1
+        for f, _ in spec:
+            if stepped.get(f):
+                col.stepovers["C13|%s|sizes of %s restricted in compositions" % (GROUPS[f], f)] += 1
         for sig, what in check_composition(col, spec, p2):
             col.discrepancy(sig, what, {"kind": "compose", "spec": spec, "p2": bool(p2)})
         if len(col.samples) < 1:
@@ -393,8 +407,12 @@ def replay_shard(path):
 
 
 def replay(path):
+    from harness import lianrun
     rec = common.load_replay(path)
-    ds = check_case(rec["case"])
+    try:
+        ds = check_case(rec["case"])
+    finally:
+        lianrun.cleanup_scratch()
     for sig, what in ds:
         kind, _ = common.classify(ID, tuple(sig))
         if kind == "known" and not os.environ.get("VERIF_CONFIRM"):
@@ -411,14 +429,19 @@ def replay(path):
 # ---------------------------------------------------------------------------------------------------
 
 def _shard(arg):
+    from harness import lianrun
     kind = arg[0]
-    if kind == "replay":
-        return replay_shard(arg[1])
-    if kind == "sweep":
-        return sweep_shard(arg[1:])
-    if kind == "compose":
-        return compose_shard(arg[1:])
-    raise ValueError(kind)
+    try:
+        if kind == "replay":
+            return replay_shard(arg[1])
+        if kind == "sweep":
+            return sweep_shard(arg[1:])
+        if kind == "compose":
+            return compose_shard(arg[1:])
+        raise ValueError(kind)
+    finally:
+        # pool workers are terminated without running atexit handlers: remove this worker's scratch directory now
+        lianrun.cleanup_scratch()
 
 
 # rough relative cost of a sweep (to start the expensive shards first)
@@ -428,15 +451,14 @@ _COST = {"mutual_ring2": 9, "mutual_ring": 5, "cyclic_imports": 5, "call_chain3"
 def main(tier, seed, t0):
     col = Collector()
     args = [("replay", p) for p in common.replay_files(ID)]
-    cf_open = const_fold_open()
     sweeps = []
     for family in sorted(fam.FAMILIES):
         sizes, skipped = sizes_for(family, tier)
         if skipped:
-            col.stepovers["C13|const-fold|%s sizes above %d" % (family, sizes[-1])] += 2 * skipped
+            col.stepovers["C13|%s|%s sizes above %d" % (GROUPS[family], family, sizes[-1])] += 2 * skipped
         for p2 in (False, True):
             sweeps.append(("sweep", family, p2, sizes, False))
-            if tier == "thorough" and family not in fam.HOSTILE:
+            if tier == "thorough" and family not in RESTRICTED:
                 sweeps.append(("sweep", family, p2, [n for n in sizes if n in (2, 4, 8, 16)], True))
     sweeps.sort(key=lambda a: -_COST.get(a[1], 1) * (4 if a[4] else 1))
     args += sweeps
@@ -458,5 +480,5 @@ def main(tier, seed, t0):
     return common.finish(ID, tier, seed, col, t0, RULE, ASSUMPTIONS,
                          extra_coverage={"families": {f: (fam.FAMILIES[f].__doc__ or "").strip() for f in sorted(fam.FAMILIES)},
                                          "sizes": {f: sizes_for(f, tier)[0] for f in sorted(fam.FAMILIES)},
-                                         "const_fold_finding_open": cf_open,
+                                         "open_finding_groups": sorted({g for g in GROUPS.values() if group_open(g)}),
                                          "degree": DEGREE})
